@@ -696,6 +696,10 @@ class TypedGetters(Suite):
         if diff:
             raise Violation('params_mismatch', '%s: req.params=%r; %s' % (where, req.params, diff))
         stats = check_getters(req, exp, case['cfg'], case['absent'], where)
+        # the getters only read: after any history of getter calls the mapping is still the reference reading
+        diff = ref.compare(req.params, exp)
+        if diff:
+            raise Violation('params_changed_by_getters', '%s: after the getter calls req.params=%r; %s' % (where, req.params, diff))
         typed_ok = any(s.startswith('ok:') and s != 'ok:get_param' and s != 'ok:get_param_as_list' for s in stats)
         errors = any(s.startswith('invalid:') or s == 'absent->HTTPMissingParam' for s in stats)
         labels = sorted(stats) + ['theme:' + case['theme'], 'asgi' if case['asgi'] else 'wsgi']
